@@ -30,7 +30,7 @@ use redis_sim::production::{verif_hooks, ConnectionConfig, PerformanceConfig, Re
 use redis_sim::redis::Command;
 use serde::{Deserialize, Serialize};
 use serde_json::json;
-use std::collections::BTreeSet;
+use std::collections::{BTreeMap, BTreeSet};
 use std::hash::{Hash, Hasher};
 use std::sync::OnceLock;
 use vcore::dump::{dump_async, show_dump, Dump};
@@ -506,6 +506,23 @@ fn stale_read_shape(r1: &Reply, rn: &Reply) -> bool {
     }
 }
 
+/// classification only: (key, relative deadline in ms) of a syntactically recognised command that
+/// gives a key a deadline
+fn rel_deadline(argv: &Argv) -> Option<(Vec<u8>, u64)> {
+    let num = |b: &Vec<u8>| std::str::from_utf8(b).ok().and_then(|s| s.parse::<u64>().ok());
+    let name = cmd_name(argv);
+    let (ms, scale) = match (name.as_str(), argv.len()) {
+        ("SET", 5) if argv[3].eq_ignore_ascii_case(b"PX") => (num(&argv[4])?, 1),
+        ("SET", 5) if argv[3].eq_ignore_ascii_case(b"EX") => (num(&argv[4])?, 1000),
+        ("PSETEX", 4) => (num(&argv[2])?, 1),
+        ("SETEX", 4) => (num(&argv[2])?, 1000),
+        ("PEXPIRE", 3) => (num(&argv[2])?, 1),
+        ("EXPIRE", 3) => (num(&argv[2])?, 1000),
+        _ => return None,
+    };
+    Some((argv[1].clone(), ms.saturating_mul(scale)))
+}
+
 /// One TTL-manager tick through the real `TtlManagerActor`: spawn it on the instance with a
 /// one-hour period (its periodic timer fires once at start-up, at this very clock value, and then
 /// never again during the case), send the explicit `TtlMessage::Tick`, then `shutdown().await`.
@@ -667,11 +684,26 @@ async fn run_api(case: &ApiCase, cfg: &ShardCfg, ctx: &mut CaseCtx<'_>) -> Resul
     let mut via_generic: BTreeSet<Vec<u8>> = BTreeSet::new();
     let mut via_fast: BTreeSet<Vec<u8>> = BTreeSet::new();
     let mut multi = false;
+    // classification only: key -> (deadline, number of clock steps seen when it was written)
+    let mut deadlines: BTreeMap<Vec<u8>, (u64, usize)> = BTreeMap::new();
+    let mut clock_steps = 0usize;
+    let mut small_steps = 0usize;
 
     for (i, step) in case.steps.iter().enumerate() {
         if let Step::Clock { ms, evict, actor } = step {
-            time.advance(*ms);
+            let now = time.advance(*ms);
+            if *ms > 0 {
+                clock_steps += 1;
+                if *ms < 400 {
+                    small_steps += 1;
+                    ctx.label("clock_step_below_400ms");
+                    if small_steps == 3 {
+                        ctx.label("three_or_more_clock_steps_below_400ms");
+                    }
+                }
+            }
             if *evict {
+                deadlines.retain(|_, (d, _)| *d > now);
                 if *actor {
                     ctx.label("ttl_tick_via_actor");
                     tick_via_actor(&reference).await;
@@ -753,6 +785,49 @@ async fn run_api(case: &ApiCase, cfg: &ShardCfg, ctx: &mut CaseCtx<'_>) -> Resul
             let distinct: BTreeSet<&String> = keys.iter().collect();
             if distinct.len() >= 2 || fanout_command(cmd) {
                 multi = true;
+            }
+        }
+
+        // ---- classification only (evidence labels): which command is the first to touch a key
+        // after its deadline has passed with no TTL tick in between. Deadlines are those of
+        // syntactically recognised commands (rel_deadline); never used by the oracle.
+        {
+            let now = time.get();
+            let mut keys_now: Vec<Vec<u8>> = fk.clone();
+            if let Some(cmd) = &parsed {
+                if fk.is_empty() && !matches!(cmd, Command::Keys(_)) {
+                    keys_now.extend(cmd.get_keys().iter().map(|k| k.as_bytes().to_vec()));
+                }
+            }
+            let mut first_touch = false;
+            let mut hops = 0usize;
+            for k in &keys_now {
+                if let Some((d, at)) = deadlines.remove(k) {
+                    if now >= d {
+                        first_touch = true;
+                        hops = hops.max(clock_steps - at);
+                    }
+                }
+            }
+            if first_touch {
+                ctx.label("first_touch_after_deadline_no_tick");
+                let by = if fk.is_empty() { name.clone() } else { "fast-family access".to_string() };
+                ctx.label(&format!("first_touch_after_deadline_no_tick:{}", by));
+                if hops >= 2 {
+                    ctx.label("first_touch_after_deadline_no_tick:>=2_clock_steps_since_the_write");
+                }
+            }
+            if let Some(cmd) = &parsed {
+                if matches!(cmd, Command::FlushDb | Command::FlushAll) {
+                    deadlines.clear();
+                } else if fanout_command(cmd) && deadlines.values().any(|(d, _)| now >= *d) {
+                    ctx.label("keyspace_aggregate_over_expired_unswept_key");
+                }
+            }
+            if let (Step::Cmd { argv, .. }, true) = (step, parsed.is_some()) {
+                if let Some((k, ms)) = rel_deadline(argv) {
+                    deadlines.insert(k, (now.saturating_add(ms), clock_steps));
+                }
             }
         }
 
@@ -1186,16 +1261,221 @@ fn clock_ms() -> BoxedStrategy<u64> {
     .boxed()
 }
 
-fn step_strategy() -> BoxedStrategy<Vec<Step>> {
-    let o = api_opts();
-    let path = || {
-        prop_oneof![
-            3 => Just(Path::Generic),
-            2 => Just(Path::Fast),
-            2 => Just(Path::Pooled),
-            2 => Just(Path::Batch),
-        ]
+/// Clock steps on the time scale of per-shard housekeeping (the TTL manager's 100 ms period, PX
+/// deadlines of a few to a few hundred ms, 1 s for EX): several of them fit into one program, so
+/// that the shards of an N-shard server — each of which only sees the commands routed to it —
+/// get through *different* (instant, command) histories than the single shard that sees all.
+fn clock_small() -> BoxedStrategy<u64> {
+    prop_oneof![
+        3 => 1u64..40,
+        4 => 40u64..160,
+        2 => 160u64..400,
+        1 => 400u64..3000,
+        1 => prop_oneof![Just(9u64), Just(10), Just(11), Just(99), Just(100), Just(101), Just(999), Just(1000), Just(1001)],
+    ]
+    .boxed()
+}
+
+fn path_strategy() -> BoxedStrategy<Path> {
+    prop_oneof![
+        3 => Just(Path::Generic),
+        2 => Just(Path::Fast),
+        2 => Just(Path::Pooled),
+        2 => Just(Path::Batch),
+    ]
+    .boxed()
+}
+
+/// aim a generated data command at key `k` (argv[1] is the key of nearly every single-key command)
+fn retarget(mut argv: Argv, k: &[u8]) -> Argv {
+    if argv.len() >= 2 && KEY_POOL.iter().any(|p| *p == argv[1].as_slice()) {
+        argv[1] = k.to_vec();
+    }
+    argv
+}
+
+/// A command whose reply says whether `k` exists (or how many keys do): the first access to a key
+/// after its deadline, through every kind of command that has to decide that question — deleting,
+/// conditional writes, type-specific reads and writes, metadata, two-key forms, the key-space
+/// aggregates, a script, every GET entry path — or any generated data command aimed at `k`.
+fn key_observer(o: &GenOpts, k: Vec<u8>) -> BoxedStrategy<Step> {
+    let g = |argv: Argv| Step::Cmd { argv, path: Path::Generic };
+    let k1 = k.clone();
+    let k2 = k.clone();
+    let k3 = k.clone();
+    let k4 = k.clone();
+    let k5 = k.clone();
+    prop_oneof![
+        // removal / existence
+        6 => (0u8..6, gen::key(o)).prop_map(move |(sel, other)| {
+            let k = &k1;
+            g(match sel {
+                0 => a(&[b"DEL", k]),
+                1 => a(&[b"UNLINK", k]),
+                2 => a(&[b"DEL", &other, k]),
+                3 => a(&[b"EXISTS", k]),
+                4 => a(&[b"EXISTS", k, &other, k]),
+                _ => a(&[b"GETDEL", k]),
+            })
+        }),
+        // metadata
+        4 => (0u8..8).prop_map(move |sel| {
+            let k = &k2;
+            g(match sel {
+                0 => a(&[b"TYPE", k]),
+                1 => a(&[b"TTL", k]),
+                2 => a(&[b"PTTL", k]),
+                3 => a(&[b"PERSIST", k]),
+                4 => a(&[b"PEXPIRE", k, b"1000"]),
+                5 => a(&[b"EXPIRE", k, b"100"]),
+                6 => a(&[b"OBJECT", b"ENCODING", k]),
+                _ => a(&[b"DEBUG", b"OBJECT", k]),
+            })
+        }),
+        // conditional and type-specific writes / reads
+        8 => (0u8..20, gen::value(), gen::member(o)).prop_map(move |(sel, v, m)| {
+            let k = &k3;
+            g(match sel {
+                0 => a(&[b"SETNX", k, &v]),
+                1 => a(&[b"SET", k, &v, b"NX"]),
+                2 => a(&[b"SET", k, &v, b"XX"]),
+                3 => a(&[b"SET", k, &v, b"KEEPTTL"]),
+                4 => a(&[b"GETSET", k, &v]),
+                5 => a(&[b"APPEND", k, &v]),
+                6 => a(&[b"STRLEN", k]),
+                7 => a(&[b"INCR", k]),
+                8 => a(&[b"SETBIT", k, b"7", b"1"]),
+                9 => a(&[b"GETBIT", k, b"7"]),
+                10 => a(&[b"RPUSH", k, &v]),
+                11 => a(&[b"LLEN", k]),
+                12 => a(&[b"LPOP", k]),
+                13 => a(&[b"SADD", k, &m]),
+                14 => a(&[b"SCARD", k]),
+                15 => a(&[b"HSET", k, &m, &v]),
+                16 => a(&[b"HLEN", k]),
+                17 => a(&[b"ZADD", k, b"1", &m]),
+                18 => a(&[b"ZCARD", k]),
+                _ => a(&[b"EVAL", SCRIPTS[3], b"1", k]),
+            })
+        }),
+        // two-key forms and key-space aggregates
+        5 => (0u8..10, gen::key(o), gen::value()).prop_map(move |(sel, other, v)| {
+            let k = &k4;
+            g(match sel {
+                0 => a(&[b"RENAME", k, k]),
+                1 => a(&[b"RENAME", k, &other]),
+                2 => a(&[b"RENAMENX", k, &other]),
+                3 => a(&[b"MSETNX", k, &v]),
+                4 => a(&[b"MGET", k, &other]),
+                5 => a(&[b"DBSIZE"]),
+                6 => a(&[b"KEYS", b"*"]),
+                7 => a(&[b"SCAN", b"0", b"COUNT", b"1000"]),
+                8 => a(&[b"RANDOMKEY"]),
+                _ => a(&[b"MSET", k, &v]),
+            })
+        }),
+        // every GET entry path
+        4 => (path_strategy(), any::<bool>()).prop_map(move |(path, batch)| {
+            if batch {
+                Step::BatchGet { keys: vec![k5.clone()] }
+            } else {
+                Step::Cmd { argv: a(&[b"GET", &k5]), path }
+            }
+        }),
+        // anything else the grammar knows, aimed at k
+        6 => gen::data_command(o).prop_map(move |argv| Step::Cmd { argv: retarget(argv, &k), path: Path::Generic }),
+    ]
+    .boxed()
+}
+
+/// A command on some other generated key: it moves the clock (and whatever else a shard does when
+/// a command arrives) of *its* shard only on the N-shard server, of the one shard on the reference.
+fn bystander(o: &GenOpts) -> BoxedStrategy<Step> {
+    prop_oneof![
+        5 => gen::data_command(o).prop_map(|argv| Step::Cmd { argv, path: Path::Generic }),
+        2 => (gen::key(o), path_strategy()).prop_map(|(k, path)| Step::Cmd { argv: a(&[b"GET", &k]), path }),
+        2 => (gen::key(o), gen::value(), path_strategy()).prop_map(|(k, v, path)| Step::Cmd { argv: a(&[b"SET", &k, &v]), path }),
+        1 => proptest::collection::vec((gen::key(o), gen::value()), 1..4).prop_map(|pairs| Step::BatchSet { pairs }),
+    ]
+    .boxed()
+}
+
+/// Aimed group `expiry_race`: a key gets a deadline; time then passes in several small steps
+/// (mostly without a TTL-manager tick) with commands on other keys in between — so the key's shard
+/// and the single reference shard have seen different commands at different instants; the deadline
+/// is placed somewhere along that stretch (7 of 8) or after it; then the key is accessed for the
+/// first time, 1–3 times, through `key_observer`. Steps before the write shift the histories too.
+fn expiry_race(o: &GenOpts) -> BoxedStrategy<Vec<Step>> {
+    let clock = || {
+        (clock_small(), prop_oneof![5 => Just((false, false)), 1 => Just((true, false)), 1 => Just((true, true))])
+            .prop_map(|(ms, (evict, actor))| Step::Clock { ms, evict, actor })
     };
+    let o2 = o.clone();
+    let hop = || (clock(), bystander(o));
+    (
+        gen::key(o),
+        (gen::value(), gen::member(o), 0u8..7, any::<u16>(), 0u8..8),
+        proptest::collection::vec(hop(), 0..3),
+        proptest::collection::vec(hop(), 0..4),
+        clock(),
+    )
+        .prop_flat_map(move |(k, (v, m, how, frac, beyond), pre, mid, last)| {
+            let total: u64 = mid
+                .iter()
+                .map(|(c, _)| c)
+                .chain(std::iter::once(&last))
+                .map(|c| if let Step::Clock { ms, .. } = c { *ms } else { 0 })
+                .sum();
+            // deadline inside (0, total] — the key runs out somewhere along the way — or beyond it
+            let ttl = if beyond == 0 { total + 1 + (frac as u64 & 63) } else { 1 + ((frac as u64 * total.max(1)) >> 16) };
+            let t = ttl.to_string().into_bytes();
+            let mut steps: Vec<Step> = Vec::new();
+            for (c, b) in pre {
+                steps.push(c);
+                steps.push(b);
+            }
+            let g = |argv: Argv| Step::Cmd { argv, path: Path::Generic };
+            match how {
+                0 | 1 => steps.push(g(a(&[b"SET", &k, &v, b"PX", &t]))),
+                2 => steps.push(g(a(&[b"PSETEX", &k, &t, &v]))),
+                3 => {
+                    steps.push(g(a(&[b"SET", &k, &v])));
+                    steps.push(g(a(&[b"PEXPIRE", &k, &t])));
+                }
+                4 => {
+                    steps.push(g(a(&[b"RPUSH", &k, &v])));
+                    steps.push(g(a(&[b"PEXPIRE", &k, &t])));
+                }
+                5 => {
+                    steps.push(g(a(&[b"HSET", &k, &m, &v])));
+                    steps.push(g(a(&[b"PEXPIRE", &k, &t])));
+                }
+                _ => {
+                    steps.push(g(a(&[b"SADD", &k, &m])));
+                    steps.push(g(a(&[b"PEXPIRE", &k, &t])));
+                }
+            }
+            for (c, b) in mid {
+                steps.push(c);
+                steps.push(b);
+            }
+            steps.push(last);
+            proptest::collection::vec(key_observer(&o2, k), 1..4).prop_map(move |obs| {
+                let mut s = steps.clone();
+                s.extend(obs);
+                s
+            })
+        })
+        .boxed()
+}
+
+/// `dense`: a time-dense program — small clock steps (mostly without a TTL tick) are as frequent as
+/// any other kind of step, so the generated PX/PEXPIRE deadlines (1..20 ms mostly) run out between
+/// commands and arbitrary commands meet expired, not yet removed keys on shards with different
+/// command histories.
+fn step_strategy(dense: bool) -> BoxedStrategy<Vec<Step>> {
+    let o = api_opts();
+    let path = path_strategy;
     let single: BoxedStrategy<Step> = prop_oneof![
         50 => gen::data_command(&o).prop_map(|argv| Step::Cmd { argv, path: Path::Generic }),
         8 => extra_commands(&o).prop_map(|argv| Step::Cmd { argv, path: Path::Generic }),
@@ -1209,6 +1489,16 @@ fn step_strategy() -> BoxedStrategy<Vec<Step>> {
         8 => (clock_ms(), any::<bool>(), any::<bool>()).prop_map(|(ms, evict, actor)| Step::Clock { ms, evict, actor }),
     ]
     .boxed();
+    let single: BoxedStrategy<Step> = if dense {
+        prop_oneof![
+            114 => single,
+            30 => (clock_small(), prop_oneof![6 => Just((false, false)), 1 => Just((true, false)), 1 => Just((true, true))])
+                .prop_map(|(ms, (evict, actor))| Step::Clock { ms, evict, actor }),
+        ]
+        .boxed()
+    } else {
+        single
+    };
     // aimed at a tiny region: a deadline, a clock step around it (with or without the TTL
     // manager's tick), then a read of that key through a generated entry path
     let ttl_probe = (gen::key(&o), gen::value(), 1u64..40, 0u64..3, any::<bool>(), path(), any::<bool>(), any::<bool>()).prop_map(
@@ -1235,6 +1525,7 @@ fn step_strategy() -> BoxedStrategy<Vec<Step>> {
         1 => ttl_probe,
         1 => script_probe(&o).prop_map(|cmds| cmds.into_iter().map(|argv| Step::Cmd { argv, path: Path::Generic }).collect()),
         1 => config_probe(&o).prop_map(|cmds| cmds.into_iter().map(|argv| Step::Cmd { argv, path: Path::Generic }).collect()),
+        1 => expiry_race(&o),
     ]
     .boxed()
 }
@@ -1293,7 +1584,12 @@ fn api_case(thorough: bool) -> BoxedStrategy<ApiCase> {
         .boxed()
     };
     let cfgs = ns.prop_flat_map(|ns| ns.into_iter().map(cfg_for).collect::<Vec<_>>());
-    (cfgs, proptest::collection::vec(step_strategy(), 1..40))
+    // 1 program in 6 is time-dense (see step_strategy)
+    let groups = prop_oneof![
+        5 => proptest::collection::vec(step_strategy(false), 1..40),
+        1 => proptest::collection::vec(step_strategy(true), 1..40),
+    ];
+    (cfgs, groups)
         .prop_map(|(cfgs, groups)| ApiCase { shards: vec![], cfgs, steps: groups.into_iter().flatten().collect() })
         .boxed()
 }
@@ -1632,7 +1928,7 @@ fn main() {
         "C03",
         Level::Exploration,
         "one generated program (data commands incl. multi-key/two-key commands, KEYS/SCAN/DBSIZE/FLUSH*, RANDOMKEY, SORT, EVAL; \
-         plain GET/SET through a generated entry path generic|fast|pooled|batch; batch pipelines; clock steps with/without TTL tick) \
+         plain GET/SET through a generated entry path generic|fast|pooled|batch; batch pipelines; clock steps with/without TTL tick, 1 program in 6 time-dense: small clock steps as frequent as commands; aimed deadline / small-steps / first-access groups) \
          run on 1 shard and on N shards (quick: 2 of {2,4,8,16,64,3,7} per program; thorough: all of 2,4,8,16,64), plus the same byte \
          stream through two connection handlers differing in shard count. non-trivial = the keys touched lie on >= 2 shards (classified \
          with a replica of the code's hashers) AND the program contains a multi-key/two-key/fan-out command or uses generic and \
@@ -1647,6 +1943,7 @@ fn main() {
     );
     s.assume("key -> shard classification (used for the non-trivial rule and for known-finding exclusions, never as an oracle) replicates hash_key / hash_key_bytes: std DefaultHasher over <str as Hash> / <[u8] as Hash>, modulo N; calibrated against RANDOMKEY's shard-0 view when that view exists");
     s.assume("the TTL manager is modelled by evict_expired_all_shards at generated clock steps; both instances share one harness clock starting at 0");
+    s.assume("the labels first_touch_after_deadline_no_tick* come from a harness-side note of deadlines set by syntactically recognised commands (SET PX|EX, PSETEX, SETEX, PEXPIRE, EXPIRE); classification only, never an oracle");
     s.assume("connection-level twin: the hook only accepts a wall-clock ShardedActorState, so expiry-bearing commands are not generated there");
     s.assume("SPOP is not generated (its choice is not a function of the program); RANDOMKEY is compared as nil-iff-empty plus membership");
     for &n in &[2usize, 4, 8, 16, 64] {
